@@ -34,7 +34,7 @@ SYNC_RULE = ("sync stream: per case a fresh regtest canister (threshold 1-4, def
 
 PROPS = {
     "C06": {
-        "extra_props": ["ReachAll", "FullCor", "FullCorExample"],
+        "extra_props": ["ReachAll", "FullCor", "FullCorExample", "C06Chain", "C06ChainExample"],
         "spec_ops": ["c walk done"],
         "streams": [{"name": "ledger", "quick": 160, "thorough": 1600}],
         "rule": LEDGER_RULE + " Interleaved page walks: a walk (page size 1-3) is started on a random address and its pages are fetched with pushes, ingestions and queries in between; `walk done` compares the concatenation with the ledger at the first tip. One directed case per four shards: a transaction with 300 outputs to one address, page size 200, first page before and later pages after the block stabilises (known finding F11).",
